@@ -40,7 +40,6 @@ import "time"
 //@   requires !t.After(u)
 //@   ensures !TimeFromTime64(Time64FromTime(t), t0).After(TimeFromTime64(Time64FromTime(u), t0))
 
-
 //@ func ClockOffset
 //@   ensures nowrap: -4611686018427387904 < t1.Sub(t0) && t1.Sub(t0) < 4611686018427387904 && -4611686018427387904 < t2.Sub(t3) && t2.Sub(t3) < 4611686018427387904 ==> mathint(result) == (mathint(t1.Sub(t0))+mathint(t2.Sub(t3)))/2
 
